@@ -266,6 +266,73 @@ fn add<V: Full>(prop: &mut Property, ctx: &Ctx) {
     }
 }
 
+/// C02's length-imitating boundary shifts (zero-filled pieces on a grid around the byte boundaries of a length field,
+/// every equal-total recombination offered with the sealed tag / signature), unsealed with the recording types
+fn length_imitating<V: Full>(prop: &mut Property, ctx: &Ctx) {
+    let name = V::NAME;
+    let grid: Vec<usize> = if ctx.thorough() { vec![0, 8, 120, 128, 136, 248, 256, 264] } else { vec![0, 8, 128, 136] };
+    let agrid: Vec<usize> = if V::assertions() { grid.clone() } else { vec![0] };
+    // public only: the message of a local token is ciphertext and cannot be re-cut
+    let mut combos: Vec<(usize, usize, usize)> = Vec::new();
+    for m in &grid {
+        for f in &grid {
+            for a in &agrid {
+                combos.push((*m, *f, *a));
+            }
+        }
+    }
+    let combos = Arc::new(combos);
+    prop.subs.push(
+        Sub::new(
+            format!("{name}/public/failing-length-imitating-shifts"),
+            combos.len() as u64,
+            format!("zero-filled (message, footer, assertion) with lengths from {grid:?} after a 2-byte marker the decoder demands: each signed combination x every other combination with the same total length, offered with the same signature: neither the payload decoder nor the validator runs"),
+            move |idx, describe| {
+                let (m, f, a) = combos[idx as usize];
+                let mut o = Outcome::new();
+                o.evals = 0;
+                if describe {
+                    o.sample = Some(json!({"backend": name, "sealed_lengths": [m + 2, f, a]}));
+                }
+                let ks = keys::keyset::<V>(false, 0);
+                let skb = &ks.secrets[0].bytes;
+                let pkb = keys::key_bytes(&keys::secret::<V>(skb).public_key());
+                let z = |n: usize| vec![0u8; n];
+                let msg = |n: usize| [&b"OK"[..], &z(n)[..]].concat();
+                let Ok(token) = ops::sign::<V>(&keys::secret::<V>(skb), &msg(m), Some(&z(f)), &z(a), &Nonce::Lib) else {
+                    o.violate_env(format!("{name}/length-imitating/seal"), "cannot sign".to_string(), json!({}));
+                    return o;
+                };
+                let Some((h, body, _)) = ops::split_token(&token) else { return o };
+                let sig = body[body.len() - V::sig_len()..].to_vec();
+                for (m2, f2, a2) in combos.iter().copied() {
+                    if (m2, f2, a2) == (m, f, a) || m2 + f2 + a2 != m + f + a {
+                        continue;
+                    }
+                    o.evals += 1;
+                    let body2 = [&msg(m2)[..], &sig[..]].concat();
+                    let zf = z(f2);
+                    let t2 = ops::join_token(&h, &body2, if f2 == 0 { None } else { Some(&zf[..]) });
+                    match monitored::<V>(false, &t2, &pkb, &z(a2)) {
+                        Err(p) => o.violate(format!("{name}/length-imitating/panic"), p, json!({"token": t2})),
+                        Ok((r, ev)) => {
+                            if ev.iter().any(|e| matches!(e, Event::PayloadDecode(_) | Event::Validate(_))) {
+                                o.violate(format!("{name}/length-imitating/callback-on-unauthenticated"), format!("a token signed over zero-filled lengths {:?} and offered as {:?}: payload decoder / validator invoked; result ok = {}", (m + 2, f, a), (m2 + 2, f2, a2), r.is_ok()), json!({"sealed": token, "offered": t2}));
+                            } else {
+                                o.class("silent-rejection");
+                            }
+                        }
+                    }
+                }
+                o.nontrivial = o.evals.max(1);
+                o.class("enumerated");
+                o
+            },
+        )
+        .witness(&["silent-rejection"]),
+    );
+}
+
 /// every piece length (shared with C02): the altered tokens fail authentication, so the callbacks stay silent
 fn long_pieces<V: Full>(prop: &mut Property, ctx: &Ctx) {
     let name = V::NAME;
@@ -473,6 +540,12 @@ pub fn build(ctx: &Ctx) -> Property {
     add::<backends::V3L>(&mut p, ctx);
     add::<backends::V4>(&mut p, ctx);
     add::<backends::V4S>(&mut p, ctx);
+    length_imitating::<backends::V1>(&mut p, ctx);
+    length_imitating::<backends::V2>(&mut p, ctx);
+    length_imitating::<backends::V3>(&mut p, ctx);
+    length_imitating::<backends::V3L>(&mut p, ctx);
+    length_imitating::<backends::V4>(&mut p, ctx);
+    length_imitating::<backends::V4S>(&mut p, ctx);
     long_pieces::<backends::V1>(&mut p, ctx);
     long_pieces::<backends::V2>(&mut p, ctx);
     long_pieces::<backends::V3>(&mut p, ctx);
